@@ -1730,6 +1730,10 @@ def c13(tier):
             t5, k5, n5 = gen.between_diagonals(r, list(cat[idx]))      # inside the bounding boxes of two separate shapes
         if j % 2:
             t5, k5, n5 = gen.framed(t5), k5 + 2, n5 + 2
+        if j % 5 == 0:
+            # ... and inside shapes that are recognised before it: a quarter arc of the catalogue and a box, overlapping
+            idx = r.choice([0, 1, 2])
+            t5, k5, n5 = gen.arc_and_box_page(r, list(cat[idx]), frame=(j % 10 == 0))
         cases.append((t5, {"idx": idx + 1, "k": k5, "n": n5, "extra": 5, "lx": 0, "ly": 0, "lch": 0}))
     obs = observe.observe([{"input": t} for t, _ in cases], tag="C13B")
     for (t, circ), o in zip(cases, obs):
@@ -2954,7 +2958,8 @@ def c20(tier):
         # times), and connections that are reset the moment they are made, nothing sent; after each batch the server answers
         # everybody else as always
         import struct as _struct
-        slowb = slow[0].encode("utf-8")
+        # (a drawing that keeps a conversion busy for about a second: a dense grid of junctions, within the 20 kB of the quantifier)
+        slowb = (("+" * 140 + "\n") * 140).encode("utf-8")
         for k in range(12):
             try:
                 s_ = _socket.create_connection(("127.0.0.1", srv.port), timeout=10)
@@ -2971,7 +2976,7 @@ def c20(tier):
                 s_.close()          # linger 0: the connection is reset, not closed
             except OSError:
                 pass
-        time.sleep(1.0)
+        time.sleep(6.0)             # (whatever the abandoned conversions do to the server, let it happen)
 
         def afterwards(cid):
             out = []
